@@ -1017,6 +1017,71 @@ def _documented_node_fields(prog, rule):
             got,), 'pyModelChecking/BDD/BDD.py')
 
 
+# -- R-BP-8: an explicit empty ordering is an ordering --------------------------
+
+def rule_bp8(prog):
+    """OBDD(text, []) (a constant, n = 0) is read as an expression over the
+    empty ordering, like OBDD(text, ['a']); only OBDD(text) -- no ordering at
+    all -- is read in lambda notation.  Decided by comparing the functions
+    the constructor calls on its returning paths for the three arguments."""
+    r = RuleResult('R-BP-8', 'the OBDD constructor takes the same route for '
+                   'an explicit empty ordering as for a non-empty one (the '
+                   'lambda reader only when no ordering is given)')
+    oc = prog.cls('BDD.OBDD.OBDD')
+    init = prog.method(oc, '__init__')
+    if init is None or len(init.node.args.args) < 3:
+        raise Inconclusive('R-BP-8', 'OBDD.__init__(self, text, ordering, '
+                           '..) not found', '')
+
+    class H(Hooks):
+        def inline(self, I, fi, args):
+            return fi is init
+
+    def routes(mk):
+        I = Interp(prog, H(), rule='R-BP-8')
+        path = I.new_path()
+        o = path.alloc('inst')
+        path.heap[o.oid].ci = oc
+        args = [o, Sym('text', ('b', 'str')), mk(I, path)]
+        for a in init.node.args.args[3:]:
+            args.append(Const(True))
+        res = I.call_function(FRef(init), args, [], path, init.node)
+        out = set()
+        for (p, v) in res:
+            if isinstance(v, Raise):
+                continue
+            out.add(tuple(e.target.fi.qn for e in p.log
+                          if e.kind == 'call' and isinstance(e.target, FRef)))
+        return out
+    none = routes(lambda I, p: Const(None))
+    empty = routes(lambda I, p: I._mk_coll('list', [], p, None))
+    one = routes(lambda I, p: I._mk_coll('list', [Const('a')], p, None))
+    r.inst(no_ordering=sorted(none), empty_ordering=sorted(empty),
+           one_variable=sorted(one))
+    if not one or not none:
+        raise Inconclusive('R-BP-8', 'no returning path of OBDD.__init__ '
+                           'for a one-variable ordering / no ordering',
+                           init.where())
+    if one == none:
+        raise Inconclusive('R-BP-8', 'the constructor calls the same '
+                           'functions with and without an ordering',
+                           init.where())
+    if empty == one:
+        r.ok()
+    else:
+        r.fail(Finding(
+            PROP, 'R-BP-8', init.where(), init.short(), 'empty-ordering',
+            'OBDD(text, []) calls %s while OBDD(text, [\'a\']) calls %s%s: '
+            'an explicit empty ordering (the n = 0 case: constants) is not '
+            'treated as an ordering' % (
+                sorted(empty) or 'nothing (no returning path)', sorted(one),
+                ' -- it takes the route of OBDD(text), the lambda notation'
+                if empty == none else ''),
+            expected=sorted(one), found=sorted(empty)),
+            witness=Const('empty'))
+    return r
+
+
 def run(prog, tier, seed):
     _documented_node_fields(prog, 'R-BP-1')
     T = Attempts()
@@ -1033,6 +1098,7 @@ def run(prog, tier, seed):
     r5 = T(rule_bp5, prog, funcs, seeds)
     r6 = T(rule_bp6, prog)
     r7 = T(rule_bp7, prog, seeds)
+    r8 = T(rule_bp8, prog)
     expl = ('The expression parser of the OBDD module is interpreted '
             'abstractly per function: every path returns an OBDD-valued '
             'expression or raises SyntaxError (no fall-through None); the '
@@ -1066,5 +1132,5 @@ def run(prog, tier, seed):
         return out
     dep = dep + adopt(T.results(T(_hashcons, prog)), PROP,
                       'one node per (variable, low, high)')
-    return T.results(r1, r2, r2b, r3, r4, r5, r6, r7) + dep, expl, \
+    return T.results(r1, r2, r2b, r3, r4, r5, r6, r7, r8) + dep, expl, \
         assumptions, T.extra()
